@@ -329,7 +329,101 @@ def run_idle_neighbour(case: Dict[str, Any]) -> Dict[str, Any]:
     return {'viol': viol, 'nontrivial': True, 'sig': 'idle/%s/%s' % (sorted(adv.items()), kind), 'obs': obs, 'sample': {'case': case}}
 
 
+def run_reverse_upstream_fails_while_pending(case: Dict[str, Any]) -> Dict[str, Any]:
+    """Reverse proxy: a keep-alive client that is slow to read a large answer (so the proxy still holds output for it) asks for
+    a route whose upstream cannot be reached (refuses, does not resolve, resets on accept).  That request fails; the worker and
+    everybody else on it carry on."""
+    from rig.peers import refused_port
+    rng = random.Random('c05rf:%s:%s' % (case['seed'], case['i']))
+    adv = case['adv']
+    kind = case['canary']
+    mode = case.get('mode', 'local')
+    base = baseline(kind, mode)
+    shim.S.reset()
+    resolver.reset({})
+    rig = StepRig(flags_all(), mode)
+    viol: List[Dict[str, Any]] = []
+    obs: Dict[str, int] = {'class:reverse-upstream-fails-while-pending': 1, 'canary:' + kind: 1, 'mode:' + mode: 1}
+    try:
+        o = rig.add_origin('127.0.%d.%d' % (rng.randint(0, 250), rng.randint(2, 250)))
+        how = adv['upstream']
+        if how == 'refuse':
+            ip = '127.0.%d.%d' % (rng.randint(0, 250), rng.randint(2, 250))
+            bad_url = b'http://%s:%d/pb' % (ip.encode(), refused_port(ip))
+        elif how == 'unresolvable':
+            bad_url = b'http://no-such-upstream-%d.test:81/pb' % case['i']
+        else:
+            ro = rig.add_origin('127.0.%d.%d' % (rng.randint(0, 250), rng.randint(2, 250)))
+            bad_url = b'http://%s/pb' % ro.hostport
+        c04._routes.update({'A': b'http://%s/pa' % o.hostport, 'B': bad_url, 'A2': None})
+        c = rig.add_client('tcp', rcvbuf=4096)
+        c.send(b'GET /ra/1 HTTP/1.1\r\nHost: r.test\r\n\r\n')
+        box: Dict[str, Any] = {}
+
+        def acc() -> bool:
+            p = o.accept()
+            if p is not None:
+                box['oc'] = p
+            return 'oc' in box
+        rig.until(acc, [])
+        oc = box['oc']
+        rig.until(lambda: b'\r\n\r\n' in oc.rx, [oc])
+        body = G.coded(b'P', adv['pending'])
+        data = b'HTTP/1.1 200 OK\r\nContent-Length: %d\r\n\r\n' % len(body) + body
+        sent = 0
+        for _ in range(4000):
+            n = oc.send(data[sent:sent + 262144])
+            if n > 0:
+                sent += n
+            rig.step()
+            if sent >= len(data):
+                break
+        held = sum(monitors.client_buffer_depth(w) for w in rig.work_objs())
+        obs['adversary_output_still_queued'] = 1 if held > 0 else 0
+        c.send(b'GET /rb/2 HTTP/1.1\r\nHost: r.test\r\n\r\n')
+        if how == 'reset-on-accept':
+            for _ in range(20):
+                rig.step()
+                p = ro.accept()
+                if p is not None:
+                    p.reset_close()
+                    break
+        canary1 = Canary(rig, kind, rng, 'concurrent')
+        for _ in range(6000):
+            if canary1.done:
+                break
+            canary1.act()
+            rig.step()
+            if adv.get('reader') == 'drains':
+                c.pump(65536)
+        c.close()
+        canary2 = Canary(rig, kind, rng, 'after')
+        for _ in range(6000):
+            if canary2.done:
+                break
+            canary2.act()
+            rig.step()
+        rig.settle([canary1.client, canary2.client], quiet=4)
+        for (cn, when) in ((canary1, 'concurrent'), (canary2, 'after')):
+            t = cn.transcript()
+            if not cn.done:
+                viol.append({'key': 'reverse-upstream-fails-while-pending|%s|canary-%s-never-completes' % (how, when), 'detail': {'adversary': adv, 'canary': kind, 'stage': cn.stage}})
+            elif t != base:
+                diffs = {k: monitors.diff_streams(base[k], t[k]) for k in base if base[k] != t[k]}
+                viol.append({'key': 'reverse-upstream-fails-while-pending|%s|canary-%s-differs:%s' % (how, when, ','.join(sorted(diffs))), 'detail': {'adversary': adv, 'diff': diffs}})
+            else:
+                obs['canary_%s_equal' % when] = 1
+        obs['both_registered'] = 1
+    except LoopDied as e:
+        viol.append({'key': 'reverse-upstream-fails-while-pending|%s|loop-died:%s' % (adv['upstream'], e.where()), 'detail': {'adversary': adv, 'canary': kind, 'tb': e.tb[-1200:]}})
+    finally:
+        rig.close()
+    return {'viol': viol, 'nontrivial': True, 'sig': 'rufp/%s/%s/%s' % (sorted(adv.items()), kind, mode), 'obs': obs, 'sample': {'case': case}}
+
+
 def run_case(case: Dict[str, Any]) -> Dict[str, Any]:
+    if case['adv']['class'] == 'reverse-upstream-fails-while-pending':
+        return run_reverse_upstream_fails_while_pending(case)
     if case['adv']['class'] == 'tls-front-silent':
         return run_tls_front_silent(case)
     if case['adv']['class'] == 'idle-neighbour':
@@ -542,6 +636,11 @@ def cases(tier: str, seed: int):
         yield mk({'class': 'tls-front-silent', 'hello': hello}, mode='local')
     for rep in range(6 if tier == 'quick' else 60):
         yield mk({'class': 'tls-front-silent', 'abort': ['reset-mid-handshake', 'fin-mid-handshake'][rep % 2]}, mode=['local', 'remote'][(rep // 2) % 2])
+    # (4c2) reverse proxy: an unreachable upstream is asked for while an earlier answer is still queued for the client
+    for rep in range(24 if tier == 'quick' else 300):
+        yield mk({'class': 'reverse-upstream-fails-while-pending', 'upstream': ['refuse', 'unresolvable', 'reset-on-accept'][rep % 3],
+                  'pending': rng.choice([0, 3000, 2000000, 8000000]), 'reader': rng.choice(['stalled', 'drains'])},
+                 canary=['forward', 'tunnel', 'web'][(rep // 3) % 3], mode='local' if rep % 4 else 'remote')
     # (4d) silent neighbours reaped by the idle sweep while the canary talks
     for rep in range(40 if tier == 'quick' else 400):
         yield mk({'class': 'idle-neighbour', 'idlers': rng.choice([1, 2, 3]), 'partial': rng.random() < 0.5, 'advance_at': rng.choice([0, 5, 20, 38, 39, 40])},
